@@ -20,6 +20,8 @@ use zkryptium::utils::message::bbsplus_message::BBSplusMessage;
 use zkryptium::utils::util::bbsplus_utils::hash_to_scalar;
 use zkryptium::verif_hooks;
 
+pub static LAST_ID: std::sync::atomic::AtomicU64 = std::sync::atomic::AtomicU64::new(0);
+
 pub enum Out<T> {
     Ok(T),
     Err,
@@ -51,7 +53,10 @@ impl<T> Out<T> {
 }
 
 pub fn guard<T>(f: impl FnOnce() -> Result<T, Error>) -> Out<T> {
-    match catch_unwind(AssertUnwindSafe(f)) {
+    crate::watch_begin(format!("{{\"note\": \"the operation after line {} of this run\"}}", LAST_ID.load(std::sync::atomic::Ordering::Relaxed)));
+    let r = catch_unwind(AssertUnwindSafe(f));
+    crate::watch_end();
+    match r {
         Ok(Ok(t)) => Out::Ok(t),
         Ok(Err(_)) => Out::Err,
         Err(_) => Out::Panic,
@@ -61,6 +66,7 @@ pub fn guard<T>(f: impl FnOnce() -> Result<T, Error>) -> Out<T> {
 fn log<T>(h: &mut H, op: &str, args: &[String], out: &Out<T>, bytes: impl Fn(&T) -> Vec<u8>) -> u64 {
     let id = h.next_id;
     h.next_id += 1;
+    LAST_ID.store(id, std::sync::atomic::Ordering::Relaxed);
     let o = match out {
         Out::Ok(t) => {
             let b = bytes(t);
